@@ -488,6 +488,49 @@ func corrStrvals(seed uint64, n int, tier string, out string, replay string) {
 		dest := genDest(r)
 		strvalsCase(m, rep, mode, s, dest, seed, i)
 	}
+	// the statement of theorem set_roundtrip against the real parser: arbitrary segments and
+	// values, rendered by the Lean `pathExpr`, must give the Lean `setPath` result
+	for i := 0; i < n/3; i++ {
+		r := NewRng(seed^0x5e7, uint64(i))
+		mode := Pick(r, []string{"typed", "string"})
+		nseg := 1 + r.Intn(4)
+		if r.Chance(3) {
+			nseg = 31
+		}
+		var ks []any
+		for j := 0; j < nseg; j++ {
+			ks = append(ks, genKeySeg(r))
+		}
+		v := Pick(r, svValues)
+		if r.Chance(30) {
+			v = genKeySeg(r) + genKeySeg(r)
+		}
+		dest := map[string]any{}
+		if r.Chance(50) {
+			// a destination compatible with the path: maps along a prefix, plus bystanders
+			cur := dest
+			for j := 0; j < r.Intn(nseg); j++ {
+				nm := map[string]any{"bystander": float64(j)}
+				cur[ks[j].(string)] = nm
+				cur["other"+fmt.Sprint(j)] = "o"
+				cur = nm
+			}
+		}
+		pr := m.Query(map[string]any{"op": "pathExpr", "mode": mode, "ks": ks, "v": v, "dest": dest})
+		expr, _ := pr["expr"].(string)
+		d := deepCopyMap(dest)
+		cs := map[string]any{"mode": mode, "ks": ks, "v": v, "dest": dest, "expr": expr}
+		rep.Count(cs, nseg > 1)
+		var err error
+		if p := safely(func() { err = parseReal(mode, expr, d, nil) }); p != "" {
+			rep.Issue(Issue{Kind: "monitor", Fingerprint: "C04:panic:strvals", What: p, Case: cs, Seed: seed, Index: i})
+			continue
+		}
+		rep.H("roundtrip:" + mode)
+		if err != nil || !jsonEqual(d, pr["expected"]) {
+			rep.Issue(Issue{Kind: "monitor", Fingerprint: "C04:set-roundtrip", What: fmt.Sprintf("parsing the escaped rendering of (path, value) does not store the value at the path (err=%v)", err), Case: cs, Model: pr["expected"], Impl: d, Seed: seed, Index: i})
+		}
+	}
 	// corpus of past/known interesting expressions
 	for i, s := range []string{"a[0].b.=", "a.b", "a=", "a", "a,", "=x", ".a=1", "a..b=1", "a[", "a[x]=1", "a[0]", "a[0]x=1", "a[0][1]=x", "a[1].b=1,a[0]=z", "a={", "a={}", "a={},b=1", "a\\", "a=\\", "a=1,", "a.b.c.d.e.f.g.h.i.j.k.l.m.n.o.p.q.r.s.t.u.v.w.x.y.z.a.b.c.d=1", "a.b.c.d.e.f.g.h.i.j.k.l.m.n.o.p.q.r.s.t.u.v.w.x.y.z.a.b.c.d.e=1"} {
 		for _, mode := range []string{"typed", "string", "literal"} {
